@@ -407,6 +407,51 @@ func runC09(c *core.Check) {
 		}
 	}
 	checkCompileSorted(c, "C09.sorted")
+
+	// shape first: class/sql_table fields must see the shape before they are compiled (the "fields cannot have
+	// children" guard and the field/column conversion depend on it)
+	c.Rule("C09.shape-first", "compileMap compiles the shape field before the other fields")
+	if cm := mustFunc(c, "d2compiler", "compiler", "compileMap"); cm != nil {
+		info := cm.Pkg.TypesInfo
+		fl := core.NewFlow(cm.Pkg, cm.Decl.Body)
+		var shapeCall *ast.CallExpr
+		var loop *ast.RangeStmt
+		for _, call := range callsIn(cm, false, "d2compiler.(*compiler).compileField") {
+			if len(call.Args) != 2 {
+				continue
+			}
+			if o := core.ObjOf(info, call.Args[1]); o != nil {
+				if d := singleDef(cm, o); d != nil && strings.Contains(exprStr(d.Rhs), "GetField(") && strings.Contains(exprStr(d.Rhs), `"shape"`) {
+					shapeCall = call
+				}
+			}
+		}
+		ast.Inspect(cm.Decl.Body, func(nd ast.Node) bool {
+			rs, ok := nd.(*ast.RangeStmt)
+			if !ok || !strings.HasSuffix(exprStr(rs.X), ".Fields") {
+				return true
+			}
+			for _, call := range core.Calls(rs.Body, false) {
+				if core.IsCallTo(info, call, "d2compiler.(*compiler).compileField") {
+					loop = rs
+				}
+			}
+			return true
+		})
+		ok := shapeCall != nil && loop != nil && shapeCall.End() < loop.Pos()
+		if ok {
+			// every path to the loop passes the shape test (the call itself is under `shape != nil`)
+			lb, li, okL := fl.Locate(loop.X)
+			if okL {
+				pass, _ := fl.MustPassBefore(lb, li, func(nd ast.Node) bool {
+					be, isBin := nd.(*ast.BinaryExpr)
+					return isBin && strings.HasPrefix(exprStr(be), "shape != nil")
+				})
+				ok = pass
+			}
+		}
+		c.Decide(ok, "C09.shape-first", "compileMap:shape-before-fields", cm.Decl.Pos(), "the shape field is compiled in a pre-pass before the loop over the other fields", "compileMap no longer compiles `shape` before the other fields: for `t: {a: {b}; shape: sql_table}` the column a is compiled while t still has the default shape, the `columns cannot have children` guard does not fire, and b stays in Graph.Objects with an unlisted parent")
+	}
 }
 
 // checkCompileSorted re-runs C08's sorted rule under another rule id.
@@ -604,6 +649,53 @@ func runC06(c *core.Check) {
 			}
 			return true
 		})
+		// joined strings are output only: prefix arithmetic is done on the ID arrays, never on the joined text
+		// (a dot inside a quoted name is not a nesting boundary)
+		joinedVars := map[types.Object]bool{}
+		ast.Inspect(fi.Decl.Body, func(nd ast.Node) bool {
+			as, ok := nd.(*ast.AssignStmt)
+			if !ok || len(as.Lhs) != len(as.Rhs) {
+				return true
+			}
+			for i, r := range as.Rhs {
+				joined := false
+				ast.Inspect(r, func(m ast.Node) bool {
+					if cl, ok := m.(*ast.CallExpr); ok && core.IsCallTo(info, cl, "strings.Join") {
+						joined = true
+					}
+					return true
+				})
+				if joined {
+					if o := core.ObjOf(info, as.Lhs[i]); o != nil {
+						joinedVars[o] = true
+					}
+				}
+			}
+			return true
+		})
+		misuse := ""
+		ast.Inspect(fi.Decl.Body, func(nd ast.Node) bool {
+			switch x := nd.(type) {
+			case *ast.IndexExpr:
+				if joinedVars[core.ObjOf(info, x.X)] {
+					misuse = exprStr(x)
+				}
+			case *ast.SliceExpr:
+				if joinedVars[core.ObjOf(info, x.X)] {
+					misuse = exprStr(x)
+				}
+			case *ast.CallExpr:
+				if f := core.CalleeOf(info, x); f != nil && f.Pkg() != nil && f.Pkg().Path() == "strings" && f.Name() != "Join" {
+					for _, a := range x.Args {
+						if joinedVars[core.ObjOf(info, a)] {
+							misuse = exprStr(x)
+						}
+					}
+				}
+			}
+			return true
+		})
+		c.Decide(misuse == "", "C06.separators", spec.recv+"."+spec.name+":joined-text-is-output-only", fi.Decl.Pos(), "no indexing, slicing or searching of joined IDs", "the joined ID text is taken apart again ("+misuse+"): a dot inside a quoted name such as \"10.0.0.1\" is then treated as a nesting boundary and the connection ID no longer parses back to its endpoints")
 		c.Decide(len(bad) == 0 && nconst > 0, "C06.separators", spec.recv+"."+spec.name, fi.Decl.Pos(), "only \".\" (and the connection ID format) are spliced between IDs", fmt.Sprintf("%s.%s splices %q between IDs: the absolute ID is no longer a D2 key path", spec.recv, spec.name, bad))
 	}
 	// generator clauses (shared with C05)
